@@ -151,6 +151,23 @@ def cases_for(pid, tr, rng, drv, wd):
                 cs.append(case(scheme, mode, n, t, rng.randrange(1 << 30), deadline=300, sign=False, fault=dict(silent_peer=0, after=0, withhold_idx=i)))
             for i in range(6 if not big else 40):
                 cs.append(case(scheme, mode, n, t, rng.randrange(1 << 30), deadline=3000, sign=False, cancel=rng.randrange(1, 25)))
+        # the EdDSA adapter (tss-lib behind the MpcParty interface) through the complete stack: same fault catalogue
+        for mode in (("loud", "silent") if big else ("loud",)):
+            n, t = 3, 2
+            rc, out, err = vlib.run_driver(drv, ["stack"], stdin_obj=dict(cases=[case("eddsa", mode, n, t, 1, sign=False, deadline=20000)], workers=1), timeout=120)
+            total = 0
+            for line in out.splitlines():
+                o = json.loads(line)
+                if o["e"] == "end":
+                    total = o["messages"]
+            per_peer = max(total // n, 1)
+            for peer in ([1, 2, 3] if big else [2]):
+                for k in (range(0, per_peer + 2) if big else sorted(set([0, 1, 2, 4] + [rng.randrange(5, per_peer + 1) for _ in range(3)] + [per_peer - 1]))):
+                    cs.append(case("eddsa", mode, n, t, rng.randrange(1 << 30), deadline=900, sign=False, fault=dict(silent_peer=peer, after=k, withhold_idx=-1)))
+            for i in (range(total) if big else rng.sample(range(total), min(total, 8))):
+                cs.append(case("eddsa", mode, n, t, rng.randrange(1 << 30), deadline=900, sign=False, fault=dict(silent_peer=0, after=0, withhold_idx=i)))
+            for i in range(4 if not big else 24):
+                cs.append(case("eddsa", mode, n, t, rng.randrange(1 << 30), deadline=5000, sign=False, cancel=rng.randrange(1, 200)))
     return cs
 
 
